@@ -62,8 +62,11 @@ namespace foonathan
                 static constexpr std::size_t min_block_size(std::size_t node_size,
                                                             std::size_t number_of_nodes)
                 {
+                    // a full chunk plus the buffer insert() adds to keep the next chunk aligned
                     return chunk_count(number_of_nodes)
-                           * (chunk_memory_offset + chunk_max_nodes * node_size);
+                           * ((chunk_memory_offset + chunk_max_nodes * node_size
+                               + alignof(chunk_base) - 1)
+                              / alignof(chunk_base) * alignof(chunk_base));
                 }
 
                 //=== constructor ===//
